@@ -516,6 +516,18 @@ func (in *Inst) Insert(e *hg.Event) (err error, panicked string) {
 	return in.H.InsertEventAndRunConsensus(e, true), ""
 }
 
+// InsertNoWire is the insertion core.sync performs after ReadWireInfo: the wire
+// information is taken as already set (setWireInfo=false).
+func (in *Inst) InsertNoWire(e *hg.Event) (err error, panicked string) {
+	defer func() {
+		if r := recover(); r != nil {
+			panicked = fmt.Sprint(r)
+			err = fmt.Errorf("panic: %v", r)
+		}
+	}()
+	return in.H.InsertEventAndRunConsensus(e, false), ""
+}
+
 // Outcome extracts the consensus outcome of the instance for the given events.
 func (in *Inst) Outcome(events []Ev) *Outcome {
 	out := &Outcome{Events: map[string]EvOut{}, Fame: map[int]map[string]int{}, Frames: map[int]string{}}
